@@ -27,6 +27,7 @@ var c13BodySchemas = map[string]J{
 }
 
 type c13BodyOp struct {
+	Method   string // "" = post
 	ID       string
 	Optional bool // requestBody.required: false
 	Bodies   []struct{ Media, Schema string }
@@ -64,6 +65,11 @@ func c13BodyOps() []c13BodyOp {
 	add("BOptList", [2]string{"application/json", "list"})
 	add("BOptDict", [2]string{"application/json", "dict"}, [2]string{"application/vnd.api+json", "dict"})
 	ops[len(ops)-1].Optional, ops[len(ops)-2].Optional = true, true
+	// a body is sent with whatever method the operation has
+	add("BDelete", [2]string{"application/json", "flat"}, [2]string{"application/x-www-form-urlencoded", "flat"})
+	ops[len(ops)-1].Method = "delete"
+	add("BGet", [2]string{"application/json", "nested"}, [2]string{"text/plain", "str"})
+	ops[len(ops)-1].Method = "get"
 	return ops
 }
 
@@ -74,7 +80,11 @@ func c13BodyDoc(ops []c13BodyOp) J {
 		for _, b := range o.Bodies {
 			content[b.Media] = J{"schema": J{"$ref": "#/components/schemas/" + strings.Title(b.Schema)}}
 		}
-		paths["/"+strings.ToLower(o.ID)] = J{"post": J{"operationId": o.ID, "requestBody": J{"required": !o.Optional, "content": content},
+		method := o.Method
+		if method == "" {
+			method = "post"
+		}
+		paths["/"+strings.ToLower(o.ID)] = J{method: J{"operationId": o.ID, "requestBody": J{"required": !o.Optional, "content": content},
 			"responses": J{"204": J{"description": "d"}}}}
 	}
 	schemas := J{}
